@@ -161,3 +161,25 @@ func ByName(n string) *Key {
 	}
 	panic("unknown key " + n)
 }
+
+// Encrypted and plain SSH private key files (PEM) for the fixture keys.
+func EdEncPEM(i int) []byte {
+	if i == 1 {
+		return []byte(edEncPEM1)
+	}
+	return []byte(edEncPEM0)
+}
+
+func EdPlainPEM(i int) []byte {
+	if i == 1 {
+		return []byte(edPlainPEM1)
+	}
+	return []byte(edPlainPEM0)
+}
+
+func RSAEncPEM(i int) []byte {
+	if i == 1 {
+		return []byte(rsaEncPEM1)
+	}
+	return []byte(rsaEncPEM0)
+}
